@@ -5,8 +5,6 @@ package app
 // go-mysql implementation to satisfy on valid sets.
 
 import (
-	"fmt"
-
 	"github.com/google/uuid"
 	"github.com/yandex/mysync/internal/mysql/gtids"
 	"github.com/yandex/mysync/internal/verifnd"
@@ -14,7 +12,7 @@ import (
 
 type bitGTID struct{ bits uint64 }
 
-func (b *bitGTID) String() string   { return fmt.Sprintf("bits:%x", b.bits) }
+func (b *bitGTID) String() string   { return verifnd.GTIDString(b.bits) }
 func (b *bitGTID) Encode() []byte   { return nil }
 func (b *bitGTID) IsEmpty() bool    { return b.bits == 0 }
 func (b *bitGTID) Clone() gtids.GTIDSet { return &bitGTID{b.bits} }
